@@ -728,7 +728,26 @@ fn gen_outbound(kind: OutKind, ch: &mut Choices) -> Plan {
             plan.senders.push(vec![AppOp::StreamQ1 { size: 8, chunks: vec![4, 4], pid: None }]);
         }
     }
-    plan.peer.auto_ack = true;
+    let mut silent_peer = false;
+    if kind == OutKind::C05 && role.is_server() && ch.chance(1, 8) {
+        // motif: the window is full and stays full (the peer acknowledges nothing); a SUBSCRIBE then makes the
+        // application's protocol service fail, and the control service, while it handles that Stop, tries one
+        // more awaiting send: it fails or waits - it never goes out on top of a full window
+        plan.cfg.ctl_sends = true;
+        plan.w_proto = [0, 0, 1];
+        silent_peer = true;
+        let ver = role.ver();
+        plan.peer.script.push(step(
+            Pkt::Subscribe(rc::Subscribe { pid: 70, props: Vec::new(), filters: vec![("boom".into(), 0)] }),
+            ver,
+            Pre::SawPackets(1 + limit),
+        ));
+        while plan.senders.len() < limit + 1 {
+            plan.senders.push(vec![AppOp::PubQ1 { len: 1, pid: None }]);
+        }
+        plan.tags.push("motif:send-from-stop-handler".into());
+    }
+    plan.peer.auto_ack = !silent_peer;
     if v5 && ch.chance(1, 2) {
         plan.peer.ack_codes = vec![0x00, 0x10, 0x00, 0x80, 0x87];
     }
